@@ -202,7 +202,110 @@ def run_freerun(case):
     return ok(outcome=ref['result'], freerun=1)
 
 
-RUNNERS = {'tree': run_tree, 'schedule': run_schedule, 'freerun': run_freerun}
+def _leaf_verdict(obs, ref):
+    if obs['monitor']:
+        return ('monitor', obs['monitor'][0], obs['brief'])
+    if obs['result'] != ref['result']:
+        return ('result', 'differs from sequential reference', {'got': obs['brief'], 'ref': ref['brief']})
+    return None
+
+
+@guarded('C04')
+def run_node(case):
+    """Wave-parallel exploration: execute exactly one node (prefix) of an unpruned tree, return its children."""
+    with pin.pinned(case.get('uuid_offset', 0)):
+        ref = reference(case)
+        run, kids = explore.expand_one(make_body(case), case['prefix'], bound=case.get('bound'))
+    v = _leaf_verdict(run.obs, ref)
+    return {'viol': None if not v else {'sig': 'C04:result-depends-on-schedule' if v[0] == 'result' else 'C04:monitor',
+                                        'detail': jsonable({'what': v[1], 'detail': v[2], 'schedule': run.choices})},
+            'kids': kids, 'log': run.obs['log'], 'outcome': run.obs['result'], 'schedule': run.choices}
+
+
+@guarded('C04')
+def run_subtree(case):
+    """Explore (unpruned) the complete subtree below case['prefix'] including the prefix execution itself."""
+    with pin.pinned(case.get('uuid_offset', 0)):
+        ref = reference(case)
+        logs = set()
+        outcomes = set()
+
+        def check(obs, run):
+            logs.add(obs['log'])
+            outcomes.add(obs['result'])
+            return _leaf_verdict(obs, ref)
+        st = explore.explore(make_body(case), check, bound=case.get('bound'), prune=False, root=case['prefix'],
+                             max_executions=case.get('max_executions'))
+    res = {'viol': None, 'executions': st['executions'], 'logs': sorted(logs), 'outcomes': sorted(outcomes),
+           'capped': st['capped'], 'choice_points': st['choice_points']}
+    if st['violations']:
+        v, choices = min(st['violations'], key=lambda vc: (sum(1 for c in vc[1] if c), len(vc[1]), vc[1]))
+        res['viol'] = {'sig': 'C04:result-depends-on-schedule' if v[0] == 'result' else 'C04:monitor',
+                       'detail': jsonable({'what': v[1], 'detail': v[2], 'schedule': choices})}
+        res['witness_schedule'] = choices
+    return res
+
+
+def explore_in_waves(ctx, case, split_levels=2, section='unpruned-wave-trees'):
+    """Complete unpruned tree of one configuration, spread over the worker pool: the first `split_levels` levels of
+    the execution tree are run node by node, every node of the next level is the root of a subtree task."""
+    from .. import par
+    frontier = [[]]
+    n_exec = 0
+    logs = set()
+    outcomes = set()
+    capped = False
+    first_viol = None
+    for level in range(split_levels):
+        nodes = [dict(case, kind='node', prefix=p) for p in frontier]
+
+        def fn(c):
+            return c, run_node(c)
+        nxt = []
+        for c, r in par.pmap(fn, nodes, ordered=True):
+            n_exec += 1
+            if r.get('viol'):
+                first_viol = first_viol or (dict(case, kind='schedule', schedule=r.get('schedule', c['prefix'])), r)
+                continue
+            logs.add(r['log'])
+            outcomes.add(r['outcome'])
+            nxt += r['kids']
+        frontier = nxt
+    subs = [dict(case, kind='subtree', prefix=p) for p in frontier]
+
+    def fn2(c):
+        return c, run_subtree(c)
+    for c, r in par.pmap(fn2, subs, chunksize=1, ordered=True):
+        if 'executions' not in r:
+            first_viol = first_viol or (c, r)
+            continue
+        n_exec += r['executions']
+        logs.update(r['logs'])
+        outcomes.update(r['outcomes'])
+        capped = capped or r['capped']
+        if r.get('viol'):
+            first_viol = first_viol or (dict(case, kind='schedule', schedule=r['witness_schedule']), r)
+    res = {'viol': first_viol[1]['viol'] if first_viol else None, 'outcome': None, 'trivial': False, 'cnt': {
+        'executions': n_exec, 'complete': n_exec, 'pruned': 0, 'capped': int(capped), 'distinct_event_logs': len(logs),
+        'choice_points': 0}, 'evals': n_exec, 'distinct': len(logs), 'transitions': n_exec, 'validated': n_exec,
+        'outcomes': sorted(outcomes), 'n_outcomes': len(outcomes)}
+    rec_case = first_viol[0] if first_viol else dict(case, kind='tree', prune=False)
+    for k in ('prefix',):
+        rec_case.pop(k, None)
+    ctx.record(rec_case, res, section)
+    for o in outcomes:
+        ctx.outcomes.add((case['driver'], case['seed'], o))
+    ctx.extra.setdefault('trees', []).append({'driver': case['driver'], 'mpb': case['mpb'], 'iso': case.get('iso', 'shared'),
+                                              'default': 'lazy', 'prune': False, 'bound': case.get('bound'),
+                                              'seed': case['seed'], 'executions': n_exec, 'pruned': 0,
+                                              'event_logs': len(logs), 'outcomes': len(outcomes), 'capped': bool(capped),
+                                              'mode': 'wave-parallel'})
+    if capped:
+        ctx.exhaustive = False
+    return res
+
+
+RUNNERS = {'tree': run_tree, 'schedule': run_schedule, 'freerun': run_freerun, 'node': run_node, 'subtree': run_subtree}
 
 
 def replay(case):
@@ -299,6 +402,15 @@ def run(ctx):
                 if set(other['outcomes']) != set(res['outcomes']):
                     raise AssertionError('pruned and unpruned exploration disagree on the outcome set for %s mpb=%s'
                                          % (d, mpb))
+                ctx.count(pruning_cross_checks=1)
+    # (2b) thorough: complete UNPRUNED trees at max_parallel_batches=3 (threshold mode: ~10^5 schedules), wave-parallel
+    if not q:
+        for d in ('rej-thr-rare', 'rej-nsim-odd', 'smc-quant'):
+            wres = explore_in_waves(ctx, {'driver': d, 'mpb': 3, 'seed': seed0}, split_levels=2)
+            other = by_key.get((d, 3, seed0, 'shared', True, None))
+            if other is not None and not wres.get('viol') and not other.get('viol'):
+                if set(other['outcomes']) != set(wres['outcomes']):
+                    raise AssertionError('pruned and unpruned exploration disagree on the outcome set for %s mpb=3' % d)
                 ctx.count(pruning_cross_checks=1)
     # (3) free-running cross-check with real worker processes
     if not q:
